@@ -1264,6 +1264,11 @@ func FoldBinaryOperator(loc logger.Loc, e *EBinary) Expr {
 
 	case BinOpPow:
 		if left, right, ok := extractNumericValues(e.Left, e.Right); ok {
+			// JavaScript differs from IEEE 754 "pow" (and from Go's "math.Pow") here:
+			// "1 ** NaN" and "(+/-1) ** (+/-Infinity)" are NaN instead of 1
+			if math.IsNaN(right) || (math.IsInf(right, 0) && math.Abs(left) == 1) {
+				return Expr{Loc: loc, Data: &ENumber{Value: math.NaN()}}
+			}
 			return Expr{Loc: loc, Data: &ENumber{Value: math.Pow(left, right)}}
 		}
 
